@@ -613,7 +613,15 @@ func hashSizeForPubKey(pubKey crypto.PublicKey) (int, error) {
 		}
 
 	case *rsa.PublicKey:
-		return key.Size(), nil
+		// RSA-2048 pairs with SHA-256 and RSA-3072 with SHA-384
+		switch size := key.Size(); size {
+		case 2048 / 8:
+			return 256, nil
+		case 3072 / 8:
+			return 384, nil
+		default:
+			return 0, fmt.Errorf("unsupported RSA key size: %d bits", size*8)
+		}
 
 	default:
 		return 0, fmt.Errorf("unsupported key type: %T", key)
